@@ -516,6 +516,9 @@ def generate():
     from .translate_np import generate_np
 
     status.update(generate_np(gen))
+    from .translate_c import generate_c
+
+    status.update(generate_c(gen))
     return status
 
 
